@@ -349,6 +349,97 @@ theorem wrapperless_counterexample :
     (implFind am .element "a" 2 true s).map (·.id) = some 1 ∧ specWinner am 2 s = none) := by
   decide
 
+/-! ## the unconditional statement for the code as committed -/
+
+/-- **What the translator reads off the committed source** (re-checked on every run; a regression of any of the five
+repairs makes this — and with it the theorems below — fail): per-alternative matching with filed priorities in both
+bodies (c733dd4), a simplified stylesheet answers for the root in the default mode only (baf9507), `key()`/`id()`
+targets are filed in every list (ca5740d), the reporting body skips only further alternatives of the best rule
+(4202302/c733dd4), `xsl:call-template` keeps the current template rule (be8ed0c). -/
+theorem code_as_committed :
+    Generated.C10.perAlternativeMatch = true ∧ Generated.C10.wrapperlessAnswersAll = false ∧
+    Generated.C10.functionTargetsAllLists = true ∧ Generated.C10.dupSkipByPatternString = false ∧
+    Generated.C10.callTemplateChangesCurrentRule = false := by decide
+
+/-- **routing_sound (discharges `hsound`).** Whatever node the last step of an alternative can select — by XPath
+semantics: `lastStepAdmits`, e.g. `text()` only text nodes, `p:*` only elements, `key()` anything, `/` only the root —
+consults a list in which `addTemplate` files the alternative's entry (`getTargetData` target string and type → routing
+chain → `addToTable` merge → `locateMatchPatternDataList`). -/
+theorem routing_sound (a : AltDesc) (k : NodeKind) (lname : String) (h : lastStepAdmits a.last k lname = true) :
+    compat (targetData a) k lname = true :=
+  compat_of_admits code_as_committed.2.2.1 a k lname h
+
+example : lastStepAdmits (.wild false true) .element "x" = true ∧ lastStepAdmits .function .text "" = true ∧
+    lastStepAdmits .node .root "" = false ∧ lastStepAdmits (.name true "x") .attribute "x" = true := by decide
+
+/-- **simplified_stylesheet_is_slash_module (discharges `hnw`).** A simplified stylesheet, modelled as XSLT §2.3
+defines it — a module whose only rule is `match="/"` (no mode, no priority) —, answers `findTemplate` exactly like that
+module's tables would: its rule for the root node in the default mode when `/` matches, nothing otherwise. -/
+theorem simplified_stylesheet_is_slash_module (am : AltMatch) (t : Tmpl) (h : t.isSlashRule) (k : NodeKind)
+    (lname : String) (mode : Nat) (quiet : Bool) :
+    findInTables am k lname mode quiet [t] = if k = .root ∧ mode = 0 ∧ am t 0 = true then some t else none :=
+  slashRule_find code_as_committed.1 am t h k lname mode quiet
+
+/-- **template_conflict_resolution — C10 at full strength for the committed code.** For every well-formed module tree
+(any import depth; `xsl:include` already expanded into the including module, so included rules have the includer's
+precedence; simplified stylesheets allowed), every rule set (any union patterns, explicit or default priorities,
+modes), every node kind/name and every mode: both bodies of `Stylesheet::findTemplate` — conflict warnings quiet or
+reported — return the rule XSLT 1.0 §5.5 prescribes: highest import precedence, then highest priority (explicit, or the
+default of the alternative that matches), then last in document order; and nothing (⇒ built-in rule,
+`builtin_rule_when_none`) exactly when no rule matches.  The only assumption left is about the abstract matcher `am`
+(`MatcherRespectsSteps`: it accepts an alternative only for nodes the alternative's last step can select, and `/`
+accepts the root) — pattern matching itself is property C09. -/
+theorem template_conflict_resolution (am : AltMatch) (k : NodeKind) (lname : String) (mode : Nat) (s : Src)
+    (hwf : s.wf) (hsem : MatcherRespectsSteps am k lname s) :
+    implFind am k lname mode true s = specWinner am mode s ∧
+    implFind am k lname mode false s = specWinner am mode s := by
+  obtain ⟨hper, hwr, _, _, _⟩ := code_as_committed
+  have hq : implFind am k lname mode true s = specWinner am mode s := by
+    unfold implFind
+    rw [Src.find_eq_firstSome_wf hper hwr am k lname mode true hsem.slash s hwf, specWinner,
+      specWinnerIn_eq_firstSome]
+    exact firstSome_congr fun ts hts =>
+      quiet_sheet_spec am k lname mode ts (fun h => by rw [hper] at h; cases h)
+        (fun t ht i a hia ham => routing_sound a k lname (hsem.step ts hts t ht i a hia ham))
+  refine ⟨hq, ?_⟩
+  rw [← hq]
+  unfold implFind
+  rw [Src.find_eq_firstSome_wf hper hwr am k lname mode false hsem.slash s hwf,
+    Src.find_eq_firstSome_wf hper hwr am k lname mode true hsem.slash s hwf]
+  apply firstSome_congr
+  intro ts _
+  simp only [findInTables, Bool.false_eq_true, if_false, if_true]
+  exact findReportList_eq_quiet_alt hper am mode _ (table_sorted ts k lname)
+
+/-- the hypotheses are satisfiable by a tree that imports a simplified stylesheet: the root gets that stylesheet's
+rule, an element the built-in rule (no rule) -/
+example :
+    let tW : Tmpl := { id := 1, mode := 0, prio := none, pat := 1, alts := [⟨.fromRoot, .simple⟩] }
+    let s := Src.mk false [tA] [.mk true [tW] []]
+    (implFind (fun t _ => t.id == 1) .root "" 0 true s).map (·.id) = some 1 ∧
+    implFind (fun _ _ => false) .element "b" 0 true s = none ∧ tW.isSlashRule := by
+  refine ⟨by decide, by decide, rfl, rfl, rfl⟩
+
+/-- **conflicts_array_bound.** The reporting body writes to `conflicts[]` (a 100-entry stack array, or a vector of
+`m_patternCount` entries when there are more patterns) at most as many entries as the consulted list has: after the
+whole list `nConflicts ≤ list length`, so with more than 100 conflicting rules the vector branch is large enough
+(each list holds an entry at most once, hence at most `m_patternCount` entries). -/
+theorem conflicts_array_bound (am : AltMatch) (mode : Nat) (l : List MPD) :
+    (l.foldl (reportStep am mode) {}).conflicts.length ≤ l.length := by
+  rw [reportStep_alt code_as_committed.1]
+  exact conflicts_le_length am mode l
+
+/-- **conflicts_within_capacity.** For every rule list and node, the number of entries the reporting body writes to
+`conflicts[]` never exceeds the capacity the code provides: the 100-entry stack array when `m_patternCount ≤ 100`, the
+vector of `m_patternCount` entries otherwise (each located list holds at most `m_patternCount` entries:
+`length_locate_le`). More than 100 conflicting rules are therefore safe. -/
+theorem conflicts_within_capacity (am : AltMatch) (mode : Nat) (ts : List Tmpl) (k : NodeKind) (lname : String) :
+    ((locate (buildTables ts) k lname).foldl (reportStep am mode) {}).conflicts.length
+      ≤ (if (buildTables ts).patternCount > 100 then (buildTables ts).patternCount else 100) := by
+  have h1 := conflicts_array_bound am mode (locate (buildTables ts) k lname)
+  have h2 := length_locate_le ts k lname
+  split <;> omega
+
 /-! ## apply-imports and built-in rules -/
 
 /-- **applyImports_scope.** `xsl:apply-imports` inside a rule of module `cur` searches exactly the modules `cur`
@@ -367,6 +458,31 @@ theorem applyImports_scope (am : AltMatch) (k : NodeKind) (lname : String) (mode
     simp [findInImports]
   · simp [specApplyImports, Src.imports, specWinnerIn_eq_firstSome]
 
+/-- **applyImports_spec — §5.6 at full strength for the committed code**: `xsl:apply-imports` in a rule of module `cur`
+instantiates exactly the rule `specApplyImports` prescribes (the §5.5 winner among the modules `cur` imports, simplified
+stylesheets included), in either body; nothing ⇒ built-in rule. -/
+theorem applyImports_spec (am : AltMatch) (k : NodeKind) (lname : String) (mode : Nat) (quiet : Bool)
+    (ts : List Tmpl) (imps : List Src) (hwf : importsWf imps)
+    (hsem : MatcherRespectsSteps am k lname (.mk false ts imps)) :
+    implApplyImports am k lname mode quiet (.mk false ts imps) = specApplyImports am mode (.mk false ts imps) := by
+  obtain ⟨hper, hwr, _, _, _⟩ := code_as_committed
+  have h := imports_find_eq_firstSome_wf hper hwr am k lname mode quiet hsem.slash imps hwf []
+  simp only [implApplyImports, Src.build, Built.find, Bool.false_eq_true, if_false, if_true]
+  rw [h]
+  simp only [findInImports, Option.or_none, specApplyImports, Src.imports, specWinnerIn_eq_firstSome]
+  apply firstSome_congr
+  intro ms hms
+  have hmem : ms ∈ (Src.mk false ts imps).byPrecedence := by
+    simp only [Src.byPrecedence]; exact List.mem_cons_of_mem _ hms
+  have hq := quiet_sheet_spec am k lname mode ms (fun h => by rw [hper] at h; cases h)
+    (fun t ht i a hia ham => routing_sound a k lname (hsem.step ms hmem t ht i a hia ham))
+  cases quiet with
+  | true => exact hq
+  | false =>
+    rw [← hq]
+    simp only [findInTables, Bool.false_eq_true, if_false, if_true]
+    exact findReportList_eq_quiet_alt hper am mode _ (table_sorted ms k lname)
+
 example :
     let cur := Src.mk false [tA] [.mk false [tStar] []]
     (implApplyImports (fun _ _ => true) .element "a" 0 true cur).map (·.id) = some 4 := by decide
@@ -378,6 +494,20 @@ theorem builtin_rule_when_none (doc : Array NodeRec) (findTop : Nat → Nat → 
     (findImp : Tmpl → Nat → Nat → Option Tmpl) (named : Nat → Option Tmpl) (ck : Bool) (f n mode : Nat)
     (h : findTop n mode = none) :
     processWith doc findTop findImp named ck (f + 1) n mode none =
+      match (doc.getD n default).kind with
+      | .element | .root =>
+        (doc.getD n default).kids.flatMap fun c => processWith doc findTop findImp named ck f c mode none
+      | .text | .attribute => [.text (doc.getD n default).text]
+      | _ => [] := by
+  simp only [processWith, h]
+  cases (doc.getD n default).kind <;> rfl
+
+/-- **builtin_rule_after_apply_imports.** `xsl:apply-imports` that finds no imported rule falls back to the same
+built-in rule of the node type, in the same mode (the children are then processed with the whole stylesheet again). -/
+theorem builtin_rule_after_apply_imports (doc : Array NodeRec) (findTop : Nat → Nat → Option Tmpl)
+    (findImp : Tmpl → Nat → Nat → Option Tmpl) (named : Nat → Option Tmpl) (ck : Bool) (f n mode : Nat) (cur : Tmpl)
+    (h : findImp cur n mode = none) :
+    processWith doc findTop findImp named ck (f + 1) n mode (some cur) =
       match (doc.getD n default).kind with
       | .element | .root =>
         (doc.getD n default).kids.flatMap fun c => processWith doc findTop findImp named ck f c mode none
